@@ -74,7 +74,9 @@ def hooks():
         def h(ex, fi, args, kwargs, st, node):
             items = ex.iter_items(args[1], st)
             if items is None or len(items) != 16:
-                raise Unsupported("AES.%s called with something that is not a block of 16 known items: %s" % (what, show(args[1], 9)[:700]))
+                o_ = ex.obj(st, args[1])
+                extra = (" (a %s of %d item(s)%s)" % (o_.kind, len(o_.items), "" if o_.exact else ", not known one by one")) if o_ is not None and hasattr(o_, "items") else ""
+                raise Unsupported("AES.%s called with something that is not a block of 16 known items: %s%s" % (what, show(args[1], 9)[:700], extra))
             key = ex.obj(st, args[0]).attrs.get("#key", NONE)
             return ex.new_list(st, fn(key, items))
 
@@ -520,12 +522,22 @@ def stream_helper_rules(prog, chk, pid):
 
             r = raise_rel(breaks[0])
             good = r[0] == "rel" and r[1] == "Falsy" and unsnap(r[2]) is chunk
+        if not good and not breaks and not others:
+            # `while chunk := in.read(n):` -- the loop's own test is "the chunk read is not empty"
+            from bfsa.guard import rel as _rel
+
+            lids = [f[1] for f in reads[0].ctx if f[0] == "loop"]
+            lr_ = ex.loops.get(lids[-1]) if lids else None
+            if lr_ is not None and lr_.kind == "while" and lr_.cond is not None and reads[0].ctx and reads[0].ctx[-1][0] == "loop":
+                rc_ = _rel(lr_.cond, True)
+                good = rc_[0] == "rel" and rc_[1] == "Truthy" and unsnap(rc_[2]) is chunk
         ok, why = good, "the loop ends on something other than an empty read (for example a short read): input delivered afterwards is dropped"
+    loop_cond = lambda f: any(l_.cond is f[1] for l_ in ex.loops.values())  # the frame of a while loop's own test, not a test inside the iteration
     if ok:
         feeds = [e for e in ev if e.kind == "mcall" and e.d["name"] == "feed" and in_loop(e)]
         writes = [e for e in ev if e.kind == "mcall" and e.d["name"] == "write" and in_loop(e)]
         ok = (len(feeds) == 1 and len(writes) == 1 and len(feeds[0].d["args"]) == 1 and unsnap(feeds[0].d["args"][0]) is chunk and unsnap(writes[0].d["args"][0]) is unsnap(feeds[0].d["result"])
-              and not [f for f in feeds[0].ctx if f[0] == "if"] and not [f for f in writes[0].ctx if f[0] == "if"])
+              and not [f for f in feeds[0].ctx if f[0] == "if" and not loop_cond(f)] and not [f for f in writes[0].ctx if f[0] == "if" and not loop_cond(f)])
         why = "a chunk is not fed unchanged, or its converted output is not written, on every iteration"
     if ok:
         tail_f = [e for e in ev if e.kind == "mcall" and e.d["name"] == "feed" and not in_loop(e)]
